@@ -59,7 +59,7 @@ def gen_spec(rng, depth=3, profile=None, inline_ok=True):
     """inline_ok: a spec that `ends inline` (a ProgressBar emits no newline) is allowed here."""
     profile = profile or {}
     spec = _gen_spec(rng, depth, profile, inline_ok)
-    solid = spec["k"] in ("panel", "padding") or (spec["k"] == "text" and spec["s"].strip())
+    solid = spec["k"] == "panel" or (spec["k"] == "text" and spec["s"].strip())
     if profile.get("controls", True) and solid and rng.random() < 0.05:
         # a renderable that emits a control code (bell, cursor visibility, window title) before its content:
         # control segments occupy no cells, wherever they end up in a line (only around children that always
